@@ -53,6 +53,13 @@ ItN == [k |-> "itn"]
 ANilIt == [simple |-> {Eff, Y(Lit0), Y(VarA)},
            inits |-> {None}, posts |-> {None, IncA}, conds |-> {T0, ItN}, ifinits |-> {None},
            kinds |-> {"if", "ifelse", "switch", "block", "for"}, jumps |-> {"break", "return"}, ranges |-> {}]
+\* loop variables captured by closures (C03): for a := a + 10; r.T(id); a++ { caps = append(caps, func() int { return a }) .. }
+\* -- every iteration has its own `a` (Go >= 1.22), observed through the closures after / inside the loop
+CapA == [k |-> "capa"]
+ObsCaps == [k |-> "obscaps", id |-> 0]
+ALoopVar == [simple |-> {CapA, ObsCaps, Y(VarA), IncA},
+             inits |-> {DefA}, posts |-> {None, IncA}, conds |-> {T0}, ifinits |-> {None},
+             kinds |-> {"if", "for"}, jumps |-> {"continue", "break"}, ranges |-> {}]
 AYfL == [AYf EXCEPT !.simple = {Eff, IncA, Y(VarA)} \cup YFsL, !.posts = {None} \cup YFsL]
 \* transformer generators (C06): a generator that ranges over the local iterator `it` (instance 2) and yields
 \* from inside the loop, also inside a switch clause, with break / continue / return and pulls by hand
@@ -159,7 +166,7 @@ ARScope == [ARange EXCEPT !.simple = {Y(VarK), Y(VarV)},
                           !.ranges = {RangeHdr("slice", "var", f[1], f[2]) :
                                         f \in {<<"asg", "asg">>, <<"blank", "asg">>, <<"asg", "none">>, <<"def", "def">>, <<"blank", "def">>}}]
 ARangeX == [ARange EXCEPT !.simple = @ \cup {Mut("nset", 0), Mut("strset", 0), Mut("sset", 0), Mut("aset", 0)}]
-A == CASE Family = "range" -> ARange [] Family = "rscope" -> ARScope [] Family = "rangex" -> ARangeX [] Family = "ctl" -> ACtl [] Family = "scope" -> AScope [] Family = "yf" -> AYf [] Family = "xf" -> AXf [] Family = "indep" -> AIndep [] Family = "gg" -> AGG [] Family = "yfl" -> AYfL [] Family = "panic" -> APanic [] Family = "nilit" -> ANilIt [] Family = "ctlx" -> ACtlX [] Family = "eff" -> AEff [] Family = "expr" -> AExpr [] Family = "jump" -> AJump [] Family = "opt" -> AOpt [] Family = "by" -> ABy [] Family = "optx" -> AOptX [] Family = "byx" -> AByX [] Family = "unsup" -> AUnsup [] Family = "box" -> ABox [] Family = "lit" -> ALit
+A == CASE Family = "range" -> ARange [] Family = "rscope" -> ARScope [] Family = "rangex" -> ARangeX [] Family = "ctl" -> ACtl [] Family = "scope" -> AScope [] Family = "yf" -> AYf [] Family = "xf" -> AXf [] Family = "indep" -> AIndep [] Family = "gg" -> AGG [] Family = "yfl" -> AYfL [] Family = "panic" -> APanic [] Family = "nilit" -> ANilIt [] Family = "loopvar" -> ALoopVar [] Family = "ctlx" -> ACtlX [] Family = "eff" -> AEff [] Family = "expr" -> AExpr [] Family = "jump" -> AJump [] Family = "opt" -> AOpt [] Family = "by" -> ABy [] Family = "optx" -> AOptX [] Family = "byx" -> AByX [] Family = "unsup" -> AUnsup [] Family = "box" -> ABox [] Family = "lit" -> ALit
 
 \* Go scoping: `a := ...` at most once per block and never in the function's top block
 \* (a is a parameter there: "no new variables on left side of :=")
@@ -193,7 +200,7 @@ HasBoomS(s) == (s.k = "yield" /\ s.v.k = "b1")
 HasBoom(b) == \E j \in 1..Len(b) : HasBoomS(b[j])
 \* a function without a Yield is not a generator for the tool (it would run eagerly: C13's business)
 IsRangeFam == Family \in {"range", "rangex", "rscope"}
-Member(p) == /\ (IF Family \in {"by", "byx"} THEN ~HasY(p) /\ HasK(p, "effx") ELSE HasY(p)) /\ (Family = "scope" => ScopeOK(p, 0)) /\ (Family = "panic" => (HasK(p, "panic") \/ HasBoom(p))) /\ (Family = "nilit" => HasItn(p))
+Member(p) == /\ (IF Family \in {"by", "byx"} THEN ~HasY(p) /\ HasK(p, "effx") ELSE HasY(p)) /\ (Family = "scope" => ScopeOK(p, 0)) /\ (Family = "panic" => (HasK(p, "panic") \/ HasBoom(p))) /\ (Family = "nilit" => HasItn(p)) /\ (Family = "loopvar" => (HasK(p, "capa") /\ HasK(p, "obscaps") /\ HasK(p, "for")))
              /\ (IsRangeFam \/ Family = "xf" => HasK(p, "range"))
              /\ (Family = "unsup" => CountU(p) = 1)
 \* range family: every program ends with an observation of the function-level kk, vv and a final yield
